@@ -275,6 +275,9 @@ pub enum MultiProofVerificationError {
     PathsOutOfOrder,
     /// Extra siblings were provided.
     TooManySiblings,
+    /// The multi-proof is structurally inconsistent: a claimed depth exceeds the length of its
+    /// path, one path is a prefix of another, or there are fewer siblings than the paths require.
+    Malformed,
 }
 
 #[derive(Debug, Clone)]
@@ -424,6 +427,10 @@ pub fn verify<H: NodeHasher>(
     let mut verified_bisections = Vec::new();
     for i in 0..multi_proof.paths.len() {
         let path = &multi_proof.paths[i];
+        // The terminal must actually reach the depth it claims.
+        if path.depth > path.terminal.path().len() {
+            return Err(MultiProofVerificationError::Malformed);
+        }
         if i > 0 {
             if path.terminal.path() <= multi_proof.paths[i - 1].terminal.path() {
                 return Err(MultiProofVerificationError::PathsOutOfOrder);
@@ -479,12 +486,20 @@ fn verify_range<H: NodeHasher>(
         // at a terminal node, 'siblings' will contain all unique
         // nodes, hash them up, and return that
         let terminal_path = &paths[0];
-        let unique_len = terminal_path.depth - start_depth;
+        // `depth <= path.len()` was checked by the caller; the terminal must also lie at or below
+        // the point where it was split off, and all of its unique siblings must be present.
+        let unique_len = terminal_path
+            .depth
+            .checked_sub(start_depth)
+            .ok_or(MultiProofVerificationError::Malformed)?;
+        let unique_siblings = siblings
+            .get(..unique_len)
+            .ok_or(MultiProofVerificationError::Malformed)?;
 
         let node = hash_path::<H>(
             terminal_path.terminal.node::<H>(),
             &terminal_path.terminal.path()[start_depth..start_depth + unique_len],
-            siblings[..unique_len].iter().rev().copied(),
+            unique_siblings.iter().rev().copied(),
         );
 
         verified_paths.push(VerifiedMultiPath {
@@ -502,15 +517,29 @@ fn verify_range<H: NodeHasher>(
     let start_path = &paths[0];
     let end_path = &paths[paths.len() - 1];
 
+    // Every path of the range must extend below the point the range was split off.
+    if paths.iter().any(|p| p.terminal.path().len() < start_depth) {
+        return Err(MultiProofVerificationError::Malformed);
+    }
+
     let common_bits = shared_bits(
         &start_path.terminal.path()[start_depth..],
         &end_path.terminal.path()[start_depth..],
     );
 
     let common_len = start_depth + common_bits;
-    // TODO: if `common_len` == 256 the multi-proof is malformed. error
 
     let uncommon_start_len = common_len + 1;
+
+    // All paths of the range must have a bit at the bisection point (no path may be a prefix of
+    // another), none may claim to end above it, and the common siblings must be present.
+    if paths
+        .iter()
+        .any(|p| p.terminal.path().len() < uncommon_start_len || p.depth < uncommon_start_len)
+        || siblings.len() < common_bits
+    {
+        return Err(MultiProofVerificationError::Malformed);
+    }
 
     // bisect `paths` by finding the first path which starts with the right bit set.
     let search_result = paths.binary_search_by(|item| {
@@ -526,6 +555,10 @@ fn verify_range<H: NodeHasher>(
     // furthermore, the left and right slices must be non-empty because start/end exist and the
     // bisection is based off of them.
     let bisect_idx = search_result.unwrap_err();
+    if bisect_idx == 0 || bisect_idx == paths.len() {
+        // not actually a bisection: the paths are not ordered by the bit they diverge on.
+        return Err(MultiProofVerificationError::Malformed);
+    }
 
     if common_bits > 0 {
         verified_bisections.push(VerifiedBisection {
@@ -551,7 +584,9 @@ fn verify_range<H: NodeHasher>(
     let (right_node, right_siblings_used) = verify_range::<H>(
         uncommon_start_len,
         &paths[bisect_idx..],
-        &siblings[common_bits + left_siblings_used..],
+        siblings
+            .get(common_bits + left_siblings_used..)
+            .ok_or(MultiProofVerificationError::Malformed)?,
         sibling_offset + common_bits + left_siblings_used,
         verified_paths,
         verified_bisections,
